@@ -79,7 +79,18 @@ func (b *cutBuilder) chain(ni string, pfx string) *spb.ModifyRequest {
 		mk(func(op *spb.AFTOperation) {
 			op.Entry = &spb.AFTOperation_Ipv4{Ipv4: &aftpb.Afts_Ipv4EntryKey{Prefix: pfx, Ipv4Entry: &aftpb.Afts_Ipv4Entry{NextHopGroup: uv(n)}}}
 		}),
+		// a label entry on the same group: the Get stream then has a label table to be cut in
+		mk(func(op *spb.AFTOperation) {
+			op.Entry = &spb.AFTOperation_Mpls{Mpls: &aftpb.Afts_LabelEntryKey{Label: &aftpb.Afts_LabelEntryKey_LabelUint64{LabelUint64: 1000 + n}, LabelEntry: &aftpb.Afts_LabelEntry{NextHopGroup: uv(n)}}}
+		}),
 	}}
+}
+
+// heldOp is one operation that cannot resolve (a prefix on a group that is not installed), with
+// the given operation id: it is held, and stays held when its session goes away.
+func (b *cutBuilder) heldOp(id uint64, pfx string, grp uint64) *spb.ModifyRequest {
+	return &spb.ModifyRequest{Operation: []*spb.AFTOperation{{Id: id, NetworkInstance: "DEFAULT", Op: spb.AFTOperation_ADD, ElectionId: b.id(),
+		Entry: &spb.AFTOperation_Ipv4{Ipv4: &aftpb.Afts_Ipv4EntryKey{Prefix: pfx, Ipv4Entry: &aftpb.Afts_Ipv4Entry{NextHopGroup: uv(grp)}}}}}}
 }
 
 func (b *cutBuilder) ops(c int, req *spb.ModifyRequest) {
@@ -117,6 +128,19 @@ func (b *cutBuilder) victim(f cutFault, fib bool, seq int) {
 		b.ops(c, b.chain("VRF1", fmt.Sprintf("21.%d.0.0/16", seq)))
 		b.evs = append(b.evs, SEv{Kind: "get", Get: getAll(), GetFail: f.j})
 		b.evs = append(b.evs, SEv{Kind: "close", C: c, CloseMode: f.mode})
+		return
+	}
+	if f.kind == "heldid" {
+		c := b.connect()
+		b.params(c, fib)
+		b.announce(c)
+		b.ops(c, b.heldOp(900001, fmt.Sprintf("40.%d.0.0/16", seq), 9000+uint64(seq)))
+		b.evs = append(b.evs, SEv{Kind: "close", C: c, CloseMode: f.mode})
+		// the successor: same operation id, again a forward reference
+		c2 := b.connect()
+		b.params(c2, fib)
+		b.announce(c2)
+		b.ops(c2, b.heldOp(900001, fmt.Sprintf("41.%d.0.0/16", seq), 9500+uint64(seq)))
 		return
 	}
 	c := b.connect()
@@ -160,8 +184,13 @@ func cutFaults() []cutFault {
 			}
 		}
 	}
-	for j := 0; j <= 4; j++ {
+	for j := 0; j <= 12; j++ {
 		out = append(out, cutFault{kind: "get", j: j, mode: []string{"eof", "cancel", "fail"}[j%3]})
+	}
+	// a session that goes away while one of its operations is held; its successor numbers its
+	// operations from the same id, and its first operation is held too
+	for _, m := range []string{"eof", "cancel", "fail"} {
+		out = append(out, cutFault{kind: "heldid", mode: m})
 	}
 	return out
 }
